@@ -1,7 +1,6 @@
 SPECIFICATION Spec
-CONSTANTS MaxTok = 4 MaxDepth = 3
-  Leaves <- LeavesQuick
-  RootKinds <- AllRoots
+CONSTANTS MaxDepth = 3
+  Families <- FamT_A
   StoreByCopy = TRUE
   TailKeepsSets = TRUE
 INVARIANT Emitted
